@@ -287,3 +287,28 @@ Proof.
     destruct (passes _ _ _); [|exact IH]. constructor; [exact IH|].
     apply Forall_forall. intros y Hy. apply filter_In in Hy. rewrite Forall_forall in Hall. apply Hall. tauto.
 Qed.
+
+(* ---------------------------------------------------------------- bracketers (C16) *)
+Definition bracket_pick (evals : list (Z * option sel)) (default : option sel) (b : Z) : option sel :=
+  match find (fun e => Z.eqb (fst e) b) evals with Some e => snd e | None => default end.
+
+(* a candidate passes a bracketer exactly when the selector configured for its bracket value passes it
+   (no selector for that bracket: it passes); the result lists the passing candidates by descending votes *)
+Theorem bracket_eval_spec evals default bracket votes c :
+  In c (bracket_eval evals default bracket votes) <->
+  exists v, In (c, v) votes /\
+    match bracket_pick evals default (dget_or bracket c 1%Z) with
+    | Some s => In c (sel_eval s votes)
+    | None => True
+    end.
+Proof.
+  unfold bracket_eval, bracket_pick. rewrite in_map_iff.
+  set (pk := match find (fun e : Z * option sel => fst e =? dget_or bracket c 1)%Z evals with Some e => snd e | None => default end).
+  split.
+  - intros ([c' v] & Hf & Hin). simpl in Hf. subst c'. apply filter_In in Hin. destruct Hin as [Hin Hp].
+    exists v. split; [apply (Permutation_in _ (sort_desc_perm Qle_bool votes)); exact Hin|].
+    cbn [fst] in Hp. fold pk in Hp. destruct pk; [apply cmem_In; exact Hp|exact I].
+  - intros (v & Hin & Hp). exists (c, v). split; [reflexivity|]. apply filter_In. split.
+    + apply (Permutation_in _ (Permutation_sym (sort_desc_perm Qle_bool votes))). exact Hin.
+    + cbn [fst]. fold pk. destruct pk; [apply cmem_In; exact Hp|reflexivity].
+Qed.
